@@ -409,6 +409,22 @@ def oracle(atom, v, rng):
     u2 = float(b.Uisoequiv)
     if ne(u1, uiso) or ne(u2, uiso):
         bad.append(("toggle_preserves", "Uisoequiv %r -> %r -> %r" % (uiso, u1, u2)))
+    # assigning one element then reading returns it; for an anisotropic atom nothing else changes
+    for names, f in ((UNAMES, 1.0), (BNAMES, K8PI2)):
+        for name in names:
+            d = copy.copy(atom)
+            i, j = PAIRS[names.index(name)]
+            val = rng.uniform(0.001, 0.1) * f
+            if not d.anisotropy and i != j:
+                continue                      # documented: assignment has no effect
+            setattr(d, name, val)
+            got = float(getattr(d, name))
+            if ne(got, val, RTOL * val):
+                bad.append(("set_get", "%s set %r read %r" % (name, val, got)))
+            if d.anisotropy:
+                for other, before in zip(names, [uij[n] for n in UNAMES] if f == 1.0 else [bij[n] for n in BNAMES]):
+                    if other != name and ne(float(getattr(d, other)), before, tol * f):
+                        bad.append(("set_get", "assigning %s changed %s from %r to %r" % (name, other, before, float(getattr(d, other)))))
     # setting the isotropic value then reading returns it
     c = copy.copy(atom)
     val = rng.uniform(0.001, 0.1)
@@ -478,15 +494,49 @@ def model_reads(out, words_per_step):
     return res
 
 
-def compare(impl, model):
-    """None when equal within tolerance, else (index, impl value, model value)"""
+def u_magnitude(vals):
+    """largest U-type quantity of a readout (B-type entries are 8 pi^2 times larger)"""
+    return max([abs(x) for x in vals[1:7] + vals[13:14] + vals[15:]] + [0.0])
+
+
+def step_magnitude(st):
+    """largest U-type value a step assigns"""
+    op = st["op"]
+    if op == "ctor":
+        return max([abs(x) for r in st.get("U", [[0.0]]) for x in r] + [abs(st.get("Uiso", 0.0))])
+    if op == "U":
+        return max(abs(x) for r in st["m"] for x in r)
+    if op in ("u", "I"):
+        return abs(st["v"])
+    if op in ("b", "J"):
+        return abs(st["v"]) / K8PI2
+    return 0.0
+
+
+def compare(impl, model, running=0.0):
+    """None when equal within tolerance, else (index, impl value, model value).
+
+    Tolerance: 1e-9 x the largest U-type quantity of this readout, plus 1e-13 x the largest
+    U-type quantity seen so far in the history (values that are exact zeros in real arithmetic,
+    e.g. the isotropic value of a traceless tensor, are round-off noise of that size)."""
     if model is None or len(model) != len(impl):
         return (-1, len(impl), None if model is None else len(model))
-    usc = max([abs(x) for x in impl[1:7] + impl[13:14] + impl[15:]] + [abs(x) for x in model[1:7] + model[13:14] + model[15:]] + [0.0])
+    usc = max(u_magnitude(impl), u_magnitude(model))
     for k, (x, y) in enumerate(zip(impl, model)):
-        sc = usc * (K8PI2 if (7 <= k <= 12 or k == 14) else 1.0)
-        if not (abs(x - y) <= RTOL * sc) and not (x == y):
+        f = K8PI2 if (7 <= k <= 12 or k == 14) else 1.0
+        if not (abs(x - y) <= (RTOL * usc + 1e-13 * running) * f) and not (x == y):
             return (k, x, y)
+    return None
+
+
+def first_disagreement(h, reads, mod):
+    """(step, difference, (impl, model)) of the first step where model and implementation differ"""
+    running = 0.0
+    for n, (ri, rm) in enumerate(zip(reads, mod)):
+        running = max(running, step_magnitude(h["steps"][n]), u_magnitude(ri))
+        d = compare(ri, rm, running) if rm is not None else None
+        if d is not None:
+            return (n, d, (ri, rm))
     return None
 
 
@@ -544,12 +594,8 @@ def run(ck):
         if mod is None:
             first_dis = (0, "model rejected the history", None)
         else:
-            for n, (ri, rm) in enumerate(zip(reads, mod)):
-                ck.coverage["traces_validated_against_impl"] += 1
-                d = compare(ri, rm) if rm is not None else None
-                if d is not None:
-                    first_dis = (n, d, (ri, rm))
-                    break
+            ck.coverage["traces_validated_against_impl"] += len(reads)
+            first_dis = first_disagreement(h, reads, mod)
         if fails:
             n, clause, detail = fails[0]
             ck.fail(history_key(h, n) + ":" + clause, "after step %d (%s) the atom violates %s: %s" % (n, h["steps"][n]["op"], clause, detail),
@@ -595,7 +641,24 @@ def witness_check(ck):
             ck.fail(key, what, rep)
 
 
-WITNESSES = []
+def witness_obl(ck):
+    """The concrete lattice `DS.Props.C09.obl` (base (5,0,0),(3,4,0),(0,0,1)) and the value
+    `Uisoequiv = 281/48` proved in Lean for U = [[1,2,3],[2,4,5],[3,5,6]], replayed on the implementation."""
+    import numpy as np
+    from diffpy.structure import Atom, Lattice
+
+    L = Lattice(base=[[5.0, 0, 0], [3.0, 4.0, 0], [0, 0, 1.0]])
+    a = Atom("C", [0, 0, 0], U=np.array([[1.0, 2, 3], [2, 4, 5], [3, 5, 6]]), lattice=L)
+    got = {"ar": L.ar, "br": L.br, "cr": L.cr, "cg": L.cg, "iso12": L.isotropicunit[0, 1], "uiso": a.Uisoequiv}
+    exp = {"ar": 0.25, "br": 0.25, "cr": 1.0, "cg": 0.6, "iso12": -0.6, "uiso": 281.0 / 48.0}
+    bad = {k: (float(got[k]), exp[k]) for k in exp if not abs(got[k] - exp[k]) <= 1e-12}
+    if bad or latok_defects(L):
+        return ("witness:obl", "the implementation does not reproduce the Lean witness DS.Props.C09.obl: %r %r" % (bad, latok_defects(L)),
+                {"kind": "witness", "name": "obl", "got_expected": bad})
+    return None
+
+
+WITNESSES = [witness_obl]
 
 
 def replay(path):
@@ -619,9 +682,15 @@ def replay(path):
         if r.get("kind") == "correspondence":
             out = common.driver([line])[0]
             mod = model_reads(out, wps)
-            dis = [n for n, (ri, rm) in enumerate(zip(reads, mod or [])) if rm is not None and compare(ri, rm)]
-            print("model/implementation disagreement at steps:", dis[:5])
+            dis = first_disagreement(h, reads, mod) if mod is not None else None
+            print("model/implementation disagreement:", dis)
             return 1 if (mod is None or dis) else 0
         return 0
+    if r.get("kind") == "witness":
+        class _Ck:
+            pass
+        res = witness_obl(_Ck())
+        print("witness:", res)
+        return 1 if res else 0
     print("nothing to replay for kind %r" % r.get("kind"))
     return 0
